@@ -1,6 +1,6 @@
-\* every fact combination (6,060), ordinary-sender combinations additionally with every single failing read: 8,750 initial states, 17,500 distinct states
+\* every fact combination (6,060), ordinary-sender combinations additionally with every single failing read (8,750), and each of those where the device kind changes the decision additionally with its mate in the same batch, before and after (2,382): 11,132 initial states, 22,264 distinct states
 SPECIFICATION Spec
 CONSTANTS FailScope = "ordinary"
-INVARIANTS TypeOK C36_SystemBypass C36_DisbandTerminal C36_Precedence C36_ErrorsOnlyWhenConsulted
+INVARIANTS TypeOK C36_SystemBypass C36_DisbandTerminal C36_Precedence C36_ErrorsOnlyWhenConsulted C36_CompanyIrrelevant
 PROPERTIES C36_PathsAgree
 CHECK_DEADLOCK FALSE
